@@ -636,6 +636,15 @@ func (env *TEnv) trCall(x *ECall) (TV, error) {
 			return TV{"(mk-iface 0 0)", types.NewInterfaceType(nil, nil)}, nil
 		}
 		return TV{Ite(S("=", a.T, "0"), "(mk-iface 0 0)", S("mk-iface", fmt.Sprint(eng.typeTag(a.Ty)), a.T)), types.NewInterfaceType(nil, nil)}, nil
+	case "boxptr": // boxptr(p): pointer p converted to an interface exactly as Go does (a nil pointer gives a typed nil, not the nil interface)
+		a, err := env.tr(x.Args[0])
+		if err != nil {
+			return TV{}, err
+		}
+		if a.Ty == nil {
+			return TV{}, fmt.Errorf("boxptr(nil)")
+		}
+		return TV{S("mk-iface", fmt.Sprint(eng.typeTag(a.Ty)), a.T), types.NewInterfaceType(nil, nil)}, nil
 	case "addr": // addr(v): the address of a heap-allocated local variable v
 		id, ok := x.Args[0].(*EIdent)
 		if !ok || env.f == nil {
